@@ -91,6 +91,8 @@ def run(ctx: Ctx):
     import fsize
     for _ in range(ctx.n(1, 8)):
         fsize.take_case(ctx, fsize.rand_take_cfg(ctx.rng))
+    for _ in range(ctx.n(2, 10)):
+        fsize.take_case(ctx, fsize.rand_fault_cfg(ctx.rng), "real_plugin_fault")
     # tie of the job data-plane model used by C02_world_crash_restore (shared with C01): in particular the number of
     # storage objects each rank writes (= the protocol model's nw r) and their bytes
     from props import c01_world
